@@ -204,6 +204,31 @@ def h_cross(B, cls="CPCCA", n=4, p=2, q=2, k=2, m=3, labels="disjoint", alpha=1.
     tx = B.completes("transform(X_new only) runs", lambda: model.transform(X=Xn, normalized=normalized))
     if tx is not None:
         B.eq("transform(X only)==transform(X,Y)[0]", tx, tr[0])
+    ty = B.completes("transform(Y_new only) runs", lambda: model.transform(Y=Yn, normalized=normalized))
+    if ty is not None:
+        B.eq("transform(Y only)==transform(X,Y)[1]", ty, tr[1])
+
+
+def h_cross_multiindex(B, cls="MCA", p=2, q=2):
+    """cross-set model fitted along two sample dimensions; each field of new data alone, on another sample grid of another size"""
+    X = xr.DataArray(B.array((2, 2, p), "x"), dims=("t1", "t2", "x"), coords={"t1": ["a", "b"], "t2": [0, 1], "x": XS[:p]}, name="v_x")
+    Y = xr.DataArray(B.array((2, 2, q), "y"), dims=("t1", "t2", "y"), coords={"t1": ["a", "b"], "t2": [0, 1], "y": XS[:q]}, name="v_y")
+    model = M.cross(cls, n_modes=2, use_pca=False)
+    model.fit(X, Y, ("t1", "t2"))
+    B.covers("BaseModelCrossSet.transform (two sample dims, one field at a time)")
+    Xn = xr.DataArray(B.array((1, 3, p), "xn"), dims=("t1", "t2", "x"), coords={"t1": ["z"], "t2": [7, 8, 9], "x": XS[:p]}, name="v_xn")
+    Yn = xr.DataArray(B.array((1, 2, q), "yn"), dims=("t1", "t2", "y"), coords={"t1": ["w"], "t2": [5, 6], "y": XS[:q]}, name="v_yn")
+    for nm, kw, new, t2 in (("X", {"X": Xn}, Xn, [7, 8, 9]), ("Y", {"Y": Yn}, Yn, [5, 6])):
+        t = B.completes(f"transform({nm}_new only) runs", lambda kw=kw: model.transform(**kw))
+        if t is None:
+            continue
+        B.check(f"transform({nm} only): sample dims restored", set(t.dims) == {"t1", "t2", "mode"}, f"dims {t.dims}")
+        if set(t.dims) == {"t1", "t2", "mode"}:
+            B.check(f"transform({nm} only): labels are those of the new {nm}", list(t["t1"].values) == list(new["t1"].values) and list(t["t2"].values) == t2, f"t1={list(t['t1'].values)} t2={list(t['t2'].values)}")
+            B.check(f"transform({nm} only): no NaN", not _has_nan(B, t), "NaN entries in the result")
+    # the fitted scores keep their own labels afterwards
+    s1, s2 = model.scores()
+    B.check("scores() keep the training labels afterwards", list(s1["t2"].values) == [0, 1] and list(s2["t2"].values) == [0, 1], f"{list(s1['t2'].values)} {list(s2['t2'].values)}")
 
 
 def configs(tier):
@@ -228,6 +253,7 @@ def configs(tier):
     add("h_single", "EOF|normalized|disjoint", cls="EOF", labels="disjoint", normalized=True)
     add("h_single", "EOF|m1|disjoint", cls="EOF", labels="disjoint", m=1)
     add("h_multiindex", "EOF|two sample dims")
+    out.append({"key": "MCA|two sample dims|one field at a time", "fn": "h_cross_multiindex", "params": {"cls": "MCA"}, "options": {"full_rank": True}})
     add("h_multi", "multi.CCA|new data")
     add("h_index_kind_mismatch", "EOF|fit MultiIndex sample, new plain index")
     add("h_missing_new", "EOF|new data: repeated labels + one missing sample", labels=(100, 100, 101), missing=(1,))
